@@ -7,6 +7,22 @@ pub use sexp::{a, S};
 
 use std::io::{BufRead, Write};
 
+/// A `Read + Seek` wrapper that delivers at most `MAX` bytes per `read` call.  Short reads are legal for
+/// `Read`: code that needs a whole block or node has to loop or use `read_exact`.  The readers the harness
+/// opens on in-memory files go through it, so that every answer the checks compare was obtained under short reads.
+pub struct ShortReads<R, const MAX: usize = 61>(pub R);
+impl<R: std::io::Read, const MAX: usize> std::io::Read for ShortReads<R, MAX> {
+    fn read(&mut self, buf: &mut [u8]) -> std::io::Result<usize> {
+        let n = buf.len().min(MAX);
+        self.0.read(&mut buf[..n])
+    }
+}
+impl<R: std::io::Seek, const MAX: usize> std::io::Seek for ShortReads<R, MAX> {
+    fn seek(&mut self, pos: std::io::SeekFrom) -> std::io::Result<u64> {
+        self.0.seek(pos)
+    }
+}
+
 /// Reads one case (S-expression) per line from stdin, applies `f`, prints one result per line.
 /// A panic inside a case is reported as `(2)`; hangs are detected by the caller (bin/check kills
 /// the process and resumes after the offending case, recording `(3)`).
